@@ -169,24 +169,28 @@ def run_acct_case(env, cfg, client, ops, start=0.0):
     for op in ops:
         k = op[0]
         before = s.cost
-        if k == 'b':
-            s.bump_cost(op[1])
-        elif k == 'r':
-            s.recalc_concurrency()
-        elif k == 'd':
-            s.data_received(bytes(op[1]) if op[1] <= 4096 else _Sized(op[1]))
-        elif k == 's':
-            # the charging part of _send_message (the write itself is exercised at session level)
-            n = op[1]
-            s.send_size += n
-            s.bump_cost(n * s.bw_cost_per_byte)
-            s.send_count += 1
-        elif k == 'e':
-            s._bump_errors(_Exc(op[1]) if op[1] is not None else None)
-        elif k == 'a':
-            env.vtime.manual += op[1]
-        elif k == 'x':
-            s._extra = op[1]
+        try:
+            if k == 'b':
+                s.bump_cost(op[1])
+            elif k == 'r':
+                s.recalc_concurrency()
+            elif k == 'd':
+                s.data_received(bytes(op[1]) if op[1] <= 4096 else _Sized(op[1]))
+            elif k == 's':
+                # the charging part of _send_message (the write itself is exercised at session level)
+                n = op[1]
+                s.send_size += n
+                s.bump_cost(n * s.bw_cost_per_byte)
+                s.send_count += 1
+            elif k == 'e':
+                s._bump_errors(_Exc(op[1]) if op[1] is not None else None)
+            elif k == 'a':
+                env.vtime.manual += op[1]
+            elif k == 'x':
+                s._extra = op[1]
+        except Exception as e:      # noqa: the accounting must not raise for any configuration
+            orc.fail('c14:accounting-raised', f'{op} raised {type(e).__name__}: {e}')
+            break
         limit = s._incoming_concurrency.max_concurrent
         orc.after(op, before, s.cost, limit)
         obs.append((s.cost, limit))
@@ -297,7 +301,10 @@ def random_cfg(rng):
     cfg = dict(bw=rng.choice([1 / 1024, 1 / 65536, 1 / 100000]), sleep=rng.choice([2.0, 0.5, 8.0]),
                base=dy(rng, 0, 300), init=rng.choice([1, 2, 3, 5, 20, 20, 30]),
                decay=rng.choice([0.0, dy(rng, 0, 8), 10000 / 3600]))
-    if kind < 0.25:
+    if kind < 0.05:
+        cfg['soft'] = dy(rng, 0, 3000)
+        cfg['hard'] = cfg['soft']                          # hard == soft exactly: disabled, no division
+    elif kind < 0.25:
         cfg['soft'], cfg['hard'] = 2000, 10000            # the defaults
     elif kind < 0.45:
         cfg['soft'] = dy(rng, 0, 3000)
@@ -450,14 +457,22 @@ def run_session_case(env, cfg, client, script):
         if closed:
             break
         if st[0] == 'bump':
-            s.bump_cost(st[1])
+            try:
+                s.bump_cost(st[1])
+            except Exception as e:      # noqa
+                fail('c14:accounting-raised', f'bump_cost({st[1]}) raised {type(e).__name__}: {e}')
+                break
             ev_last = None    # may or may not have re-evaluated
         elif st[0] == 'extra':
             s._extra = st[1]
         elif st[0] == 'advance':
             env.advance(st[1])
         elif st[0] == 'eval':
-            s.recalc_concurrency()
+            try:
+                s.recalc_concurrency()
+            except Exception as e:      # noqa
+                fail('c14:accounting-raised', f'recalc_concurrency() raised {type(e).__name__}: {e}')
+                break
             ev_last = s.cost + s._extra
         elif st[0] in ('req', 'fail'):
             rid = st[1]
@@ -538,7 +553,9 @@ def random_session_script(rng):
     cfg = dict(bw=1 / 65536, soft=dy(rng, 0, 1000), decay=rng.choice([0.0, 0.25]),
                sleep=rng.choice([2.0, 0.5]), base=dy(rng, 0, 200), init=rng.choice([1, 3, 20]))
     mode = rng.random()
-    if mode < 0.2:
+    if mode < 0.05:
+        cfg['hard'] = cfg['soft']
+    elif mode < 0.2:
         cfg['hard'] = dy(rng, 0, cfg['soft'])
     else:
         cfg['hard'] = cfg['soft'] + dy(rng, 50, 3000)
